@@ -27,7 +27,20 @@ fn emit(args: &Args) {
     let thorough = args.thorough();
     let seed = args.u64("seed", 1);
     let only: Option<Vec<String>> = args.get("families").map(|s| s.split(',').map(|x| x.to_string()).collect());
-    let c = corpus::load(&corpus_dir, &repo, thorough, seed);
+    let mut c = corpus::load(&corpus_dir, &repo, thorough, seed);
+    let extras = cfg!(feature = "extras");
+    // the grammar-extras configuration (`e+` kept as RepOnce, `#tag = e` kept as NodeTag) drives the
+    // family written for it plus the committed grammars that use `+` or tags most
+    const X_SHARED: [&str; 14] = ["core_ops", "core_ws", "core_both", "core_kinds", "core_json", "core_wsplus", "core_commentplus", "core_pred", "stack_basic", "stack_indent", "repo_grammar", "repo_json", "repo_syntax", "repo_csv"];
+    if extras {
+        c.grammars.retain(|g| g.family == "extras" || g.family == "getter" || g.family == "rec" || g.family == "arity" || X_SHARED.contains(&g.id.as_str()));
+        // a committed grammar of another family may be invalid under grammar-extras (a tag on a silent rule)
+        c.rejected.retain(|(id, _)| id.starts_with("extras_"));
+    } else {
+        c.grammars.retain(|g| g.family != "extras");
+        c.rejected.retain(|(id, _)| !id.starts_with("extras_"));
+    }
+    let prefix = if extras { "x" } else { "s" };
     let mut mods: Vec<(String, String, usize, String)> = Vec::new(); // id, text, rules, family
     let mut problems = Vec::new();
     for (id, e) in &c.rejected {
@@ -39,7 +52,7 @@ fn emit(args: &Args) {
                 continue;
             }
         }
-        let with_variants = matches!(g.family.as_str(), "rec" | "getter" | "random") || (g.family == "rand" && g.id.ends_with(|c: char| c == '0' || c == '3' || c == '6' || c == '9')) || ["core_ops", "core_ws", "core_both", "core_kinds", "core_pred", "core_json", "core_empty", "core_wsplus", "core_commentplus", "stack_basic", "stack_nested", "repo_csv"].contains(&g.id.as_str());
+        let with_variants = matches!(g.family.as_str(), "rec" | "getter" | "random" | "extras") || (g.family == "rand" && g.id.ends_with(|c: char| c == '0' || c == '3' || c == '6' || c == '9')) || ["core_ops", "core_ws", "core_both", "core_kinds", "core_pred", "core_json", "core_empty", "core_wsplus", "core_commentplus", "stack_basic", "stack_nested", "repo_csv"].contains(&g.id.as_str());
         let with_walker = g.family != "kinds" && g.family != "slice";
         match emit::grammar_module(g, with_variants, with_walker) {
             Ok(m) => mods.push((g.id.clone(), m.text, m.rules * if with_variants { 5 } else { 1 }, g.family.clone())),
@@ -85,7 +98,7 @@ fn emit(args: &Args) {
         let ids: Vec<String> = idxs.iter().map(|i| mods[*i].0.clone()).collect();
         let src = emit::shard_bin(&texts, &ids);
         let first_of_family = bin_family.iter().position(|f| *f == bin_family[k]).unwrap();
-        let name = format!("s_{}_{}", bin_family[k], k - first_of_family);
+        let name = format!("{}_{}_{}", prefix, bin_family[k], k - first_of_family);
         if write_if_changed(&bin_dir.join(format!("{}.rs", name)), &src) {
             changed += 1;
         }
@@ -96,7 +109,7 @@ fn emit(args: &Args) {
     if let Ok(rd) = std::fs::read_dir(&bin_dir) {
         for e in rd.flatten() {
             let n = e.file_name().to_string_lossy().to_string();
-            if (n.starts_with("shard_") || n.starts_with("s_")) && n.ends_with(".rs") && !live.contains(&n) {
+            if (n.starts_with("shard_") || n.starts_with(&format!("{}_", prefix))) && n.ends_with(".rs") && !live.contains(&n) {
                 let _ = std::fs::remove_file(e.path());
             }
         }
